@@ -765,6 +765,9 @@ func parseShard() (int, int, bool) {
 	return a, b, true
 }
 
+// concExtraCoverage is merged into the coverage that concFinish writes (phases a check runs beside its scenarios).
+var concExtraCoverage map[string]any
+
 func concFinish(run *ev.Run, results []shardResult, err error, rule string) int {
 	if err != nil {
 		run.HarnessErr = err
@@ -842,6 +845,9 @@ func concFinish(run *ev.Run, results []shardResult, err error, rule string) int 
 		"deadlocks":    deadlocks,
 		"uncontrolled": uncontrolled,
 		"per_scenario": per,
+	}
+	for k, v := range concExtraCoverage {
+		run.Coverage[k] = v
 	}
 	return run.Finish()
 }
